@@ -63,6 +63,8 @@ def cop(op):
     if k == 'force_multi':
         return ('(OForceMulti ' + clist([cnat(c) for c in op['chains']]) + ' ' + clist([cstr(n) for n in op['names']]) +
                 f' {cbool(op["recompute"])} {cbool(op["delete"])})')
+    if k == 'reset':
+        return f'(OReset {cnat(op["chain"])} {cstr(op["name"])})'
     if k == 'has_data':
         return f'(OHasData {cnat(op["chain"])} {cstr(op["name"])})'
     if k == 'flags':
@@ -128,6 +130,8 @@ def gen_history(rng, case, max_ops=14, mix='all'):
             ops.append({'op': 'records', 'chain': rng.randrange(nchains), 'pick': rng.randrange(64)})
         elif r < 0.6 or (mix == 'plain' and r < 0.8):
             ops.append({'op': 'value', 'chain': rng.randrange(nchains), 'pick': rng.randrange(64)})
+        elif mix != 'plain' and r < 0.62:
+            ops.append({'op': 'reset', 'chain': rng.randrange(nchains), 'pick': rng.randrange(64)})
         elif r < 0.64 or (mix == 'plain' and r < 0.86):
             ops.append({'op': 'has_data', 'chain': rng.randrange(nchains), 'pick': rng.randrange(64)})
         elif r < 0.68 or (mix == 'plain' and r < 0.9):
@@ -138,6 +142,8 @@ def gen_history(rng, case, max_ops=14, mix='all'):
         elif r < 0.76 or (mix == 'force' and r < 0.82):
             ops.append({'op': 'force_task', 'chain': rng.randrange(nchains), 'pick': rng.randrange(64),
                         'delete': rng.random() < 0.4})
+            if rng.random() < 0.3:      # the value held in memory is dropped between forcing and the next request
+                ops.append({'op': 'reset', 'chain': ops[-1]['chain'], 'pick': ops[-1]['pick']})
         elif r < 0.84 or (mix == 'force' and r < 0.95):
             ops.append({'op': 'force_chain', 'chain': rng.randrange(nchains),
                         'picks': [rng.randrange(64) for _ in range(rng.choice([1, 1, 2, 2, 3]))],
@@ -190,7 +196,7 @@ def history_oracle(case, obs, checks):
     for k, s in enumerate(steps):
         op = s['op']
         kind = op['op']
-        if kind in ('force_task', 'force_chain', 'fail'):
+        if kind in ('force_task', 'force_chain', 'fail', 'reset'):
             ever_forced_or_failed = True
         if 'values' in checks and kind == 'value' and s['out'] != 'error':
             chains = refs[k]
@@ -202,7 +208,7 @@ def history_oracle(case, obs, checks):
                     return (f'step {k}: value of {op["name"]} is {json.dumps(got)[:300]}, the reference evaluation of the '
                             f'current configuration gives {json.dumps(want)[:300]}')
         if 'runs' in checks:
-            if kind in ('build', 'multi', 'has_data', 'restart', 'fail', 'force_task') and s['runs']:
+            if kind in ('build', 'multi', 'has_data', 'restart', 'fail', 'force_task', 'reset') and s['runs']:
                 return f'step {k}: {kind} ran {s["runs"]}'
             if kind == 'force_chain' and not op.get('recompute') and s['runs']:
                 return f'step {k}: force without recompute ran {s["runs"]}'
